@@ -105,6 +105,12 @@ func (c *HyperlaneController) HandlePacket(
 		return errorsmod.Wrap(err, "error extracting Hyperlane forwarding attributes")
 	}
 
+	// The attributes are validated before being used: converting a byte slice
+	// shorter than 32 bytes into an hex address panics.
+	if err := attr.Validate(); err != nil {
+		return core.ErrValidation.Wrapf("invalid Hyperlane forwarding: %s", err.Error())
+	}
+
 	c.logger.Debug(
 		"forwarding attributes",
 		"token_id",
